@@ -354,7 +354,7 @@ def _run_program(R, oid, name, prog, options, minimal, fn, timeout_fails=True):
 def _mk(kind, part, parts):
     options = {"optimize": True} if kind == "optimize" else {}
     minimal = kind == "grouping"
-    props = {"scalar": ["C01", "C03", "C05", "C12", "C15", "C11"], "optimize": ["C02", "C14", "C05"], "grouping": ["C08", "C01"]}[kind]
+    props = {"scalar": ["C01", "C03", "C05", "C12", "C15", "C11"], "optimize": ["C02", "C14", "C05", "C01"], "grouping": ["C08", "C01"]}[kind]
 
     @family(f"E2E.{kind}.{part}", props=props,
             functions=["nsl.Compiler::Compiler.Compile", "nsl.parser::NslParser.Parse", "nsl.passes.ComputeTypes::ComputeTypeVisitor", "nsl.passes.AddImplicitCasts::AddImplicitCastVisitor",
@@ -679,3 +679,112 @@ def compile_history(R):
                 """, seq=list(bad[0]), opts=dict(opts))
         R.bounded(f"P.compile-history[{lab}]", "nsl.Compiler::Compiler.Compile", bad is None, n,
                   detail=f"{n} compilations in sequences of 2-3 programs on one Compiler" if bad is None else f"after compiling {len(bad[0]) - 1} other program(s) the same Compiler produces {bad[1]} for:\n{bad[0][-1]}", replay=rp)
+
+
+# ---------------------------------------------------------------------------
+# Compilation is a function of the source text, also across Compiler objects in one process: programs that use the SAME names for DIFFERENT
+# things (struct members, overload sets, global / local types, array sizes), compiled one after the other by fresh Compiler objects, each behave
+# as their own text says.  (P.compile-history compares with a fresh Compiler of the same process and is blind to state kept at class or module
+# level -- memo tables keyed by a name or by str(type).)  Expected values are those the text of C01 / C03 / C10 prescribes.
+
+_PROCESS_GROUPS = {
+    "struct-members": [
+        ("struct Acc { int total; }\nexport function f(int a) -> int { Acc s; s.total = (s.total + a); return s.total; }", dict(a=5), 5),
+        ("struct Acc { int total; int count; }\nexport function f(int a) -> int { Acc s; s.count = (s.count + 1); s.total = (s.total + a); return (s.total + s.count); }", dict(a=5), 6),
+        ("struct Acc { float total; int[3] hits; }\nexport function f(int a) -> float { Acc s; s.hits[2] = (s.hits[2] + 1); s.total = (s.total + 0.5); return (s.total + s.hits[2]); }", dict(a=5), 1.5),
+    ],
+    "overload-sets": [
+        ("function sc(float x) -> float { return (x * 2.0); }\nexport function f(int a) -> float { return sc(a); }", dict(a=3), 6.0),
+        ("function sc(int x) -> int { return (x + 100); }\nfunction sc(float x) -> float { return (x * 2.0); }\nexport function f(int a) -> float { return sc(a); }", dict(a=3), 103.0),
+        ("function sc(int x) -> int { return (x + 7); }\nexport function f(int a) -> float { return sc(a); }", dict(a=3), 10.0),
+        ("function sc(int x, int y) -> int { return (x - y); }\nexport function f(int a) -> float { return sc(a, 1); }", dict(a=3), 2.0),
+    ],
+    "global-types": [
+        ("int g;\nexport function f(int a) -> int { g = a; return (g / 2); }", dict(a=3), 1),
+        ("float g;\nexport function f(int a) -> float { g = a; return (g / 2); }", dict(a=3), 1.5),
+        ("float g;\nexport function f(int a) -> float { g = (a / 2); return g; }", dict(a=3), 1.0),
+    ],
+    "parameter-types": [
+        ("export function f(int a, int b) -> int { return (a / b); }", dict(a=7, b=2), 3),
+        ("export function f(float a, float b) -> float { return (a / b); }", dict(a=7.0, b=2.0), 3.5),
+        ("export function f(float a, int b) -> float { return (a / b); }", dict(a=7.0, b=2), 3.5),
+    ],
+    "local-types": [
+        ("export function f(int a) -> int { int x = (a / 2); int[3] t; t[2] = x; return (t[2] * 2); }", dict(a=7), 6),
+        ("export function f(int a) -> float { float x = (a / 2.0); float[5] t; t[4] = x; return (t[4] * 2); }", dict(a=7), 7.0),
+        ("export function f(int a) -> int { int[5] t; t[4] = a; int x = t[4]; x++; return x; }", dict(a=7), 8),
+    ],
+    "constants": [
+        ("export function f(int a) -> int { int x = 1; return ((a + x) / 2); }", dict(a=6), 3),
+        ("export function f(float a) -> float { float x = 1.0; x++; return ((a + x) / 2); }", dict(a=6.0), 4.0),
+        ("export function f(int a) -> float { float x = 1; return ((a + x) / 2); }", dict(a=6), 3.5),
+    ],
+    "loops": [
+        ("export function f(int n) -> int { int r = 0; for (int i = 0; i < n; ++i) { if (i == 2) { break; } r = (r + 1); } for (int j = 0; j < n; ++j) { r = (r + 10); } return r; }", dict(n=4), 42),
+        ("export function f(int n) -> int { int r = 0; int i = 0; while (i < n) { i = (i + 1); if (i == 2) { continue; } r = (r + i); } return r; }", dict(n=4), 8),
+        ("export function f(int n) -> int { int r = 0; for (int i = 0; i < n; ++i) { for (int j = 0; j < n; ++j) { if (j == 1) { break; } r = (r + 1); } if (i == 2) { continue; } r = (r + 100); } return r; }", dict(n=4), 304),
+    ],
+}
+
+
+@family("E2E.process-history", props=["C01", "C03", "C05", "C10", "C16", "C02", "C12", "C15"],
+        functions=["nsl.Compiler::Compiler.Compile", "nsl.passes.ComputeTypes::ComputeTypeVisitor", "nsl.passes.LowerToIR::LowerToIRVisitor", "nsl.types::ResolveFunction", "nsl.VM::VirtualMachine.Invoke"],
+        assumptions=["BOUNDED in histories and inputs (never counted as proved): 7 groups of 3-4 programs that give the same names different meanings; within each group every ordered pair, and the whole "
+                     "list forwards and backwards, compiled by fresh Compiler objects in ONE process (plain and optimised) and run on one input each; expected values written from the property text"])
+def process_history(R):
+    """A program means what its own text says, whatever other programs this process compiled before (fresh Compiler objects)."""
+    import io, contextlib, itertools
+    from nsl import Compiler, LinearIR, VM
+
+    def run_one(src, args, opt):
+        try:
+            with contextlib.redirect_stdout(io.StringIO()):
+                r = Compiler.Compiler().Compile(src, {"optimize": opt})
+            lk = LinearIR.Linker()
+            lk.AddModule(r.IRModule)
+            return VM.VirtualMachine(lk.Link()).Invoke("f", **dict(args))
+        except BaseException as e:
+            if isinstance(e, KeyboardInterrupt):
+                raise
+            return f"raised {type(e).__name__}: {str(e)[:80]}"
+
+    def same(got, want):
+        return type(got) is type(want) and got == want
+
+    for gname, progs in _PROCESS_GROUPS.items():
+        seqs = [list(p) for p in itertools.permutations(range(len(progs)), 2)] + [list(range(len(progs))), list(reversed(range(len(progs))))]
+        for opt in (False, True):
+            bad = None
+            n = 0
+            for seq in seqs:
+                for pos, k in enumerate(seq):
+                    src, args, want = progs[k]
+                    got = run_one(src, args, opt)
+                    n += 1
+                    if not same(got, want) and bad is None:
+                        bad = (seq[:pos + 1], got, want)
+                if bad:
+                    break
+            rp = None
+            if bad:
+                rp = script("""
+                    import io, contextlib
+                    from nsl import Compiler, LinearIR, VM
+                    progs, opt = {{progs}}, {{opt}}
+                    def run_one(src, args):
+                        try:
+                            with contextlib.redirect_stdout(io.StringIO()):
+                                r = Compiler.Compiler().Compile(src, {'optimize': opt})
+                            lk = LinearIR.Linker(); lk.AddModule(r.IRModule)
+                            return VM.VirtualMachine(lk.Link()).Invoke('f', **dict(args))
+                        except BaseException as e:
+                            return 'raised %s: %s' % (type(e).__name__, str(e)[:80])
+                    got = None
+                    for src, args, want in progs:
+                        got = run_one(src, args)
+                        print(src); print('   f(%r) = %r, expected %r' % (args, got, want))
+                    if not (type(got) is type(want) and got == want): print('REPLAY-CONFIRMED')
+                    """, progs=[list(progs[k]) for k in bad[0]], opt=opt)
+            R.bounded(f"E2E.process-history[{gname},{'opt' if opt else 'plain'}]", "nsl.Compiler::Compiler.Compile", bad is None, n,
+                      detail=f"{n} compilations" if bad is None else
+                      f"after compiling {len(bad[0]) - 1} other program(s) of the group in this process, f returns {bad[1]!r} instead of {bad[2]!r} for:\n{progs[bad[0][-1]][0]}", replay=rp)
